@@ -1,6 +1,7 @@
-(* Proof/ChanPipeOut.v -- layer L3: the output buffers and the wire, for executions
-   without a worker-side send_continue (wsc = false).
-   Transport: wire ++ pending ++ discarded = produced   (nothing duplicated, lost, reordered)
+(* Proof/ChanPipeOut.v -- layer L3: the output buffers and the wire (for the code as it is:
+   p_unlocked = false, every flush runs under outbuf_lock).
+   Transport: wire ++ pending = produced with the segment discarded by handle_close cut out
+              (nothing duplicated, lost, reordered between the buffers and the wire)
    Production: produced = the units in order; the response units are the executed requests in
    order; every response unit but the one being written is complete. *)
 From Coq Require Import List Arith Bool ZArith Lia.
@@ -76,13 +77,17 @@ Definition FlInv (s : shared) (f : flst) : Prop :=
   | FlPop => infl s = 0 /\ hd [] (obs s) = [] /\ 1 < length (obs s)
   end.
 
+(* what the client has received plus what is pending *)
+Definition tr_l (s : shared) : list tok := wire s ++ skipn (infl s) (concat (obs s)).
+
 Definition transport (s : shared) : Prop :=
-  wire s ++ skipn (infl s) (concat (obs s)) ++ discarded s = produced s.
+  tr_l s = kept s /\
+  discarded s = firstn (length (discarded s)) (skipn (cut s) (produced s)).
 
 (* the fields a flush step does not touch *)
 Definition same_rest (s s' : shared) : Prop :=
   produced s' = produced s /\ discarded s' = discarded s /\ units s' = units s /\ execs s' = execs s /\
-  requests s' = requests s /\ connected s' = connected s /\ wsc s' = wsc s.
+  requests s' = requests s /\ connected s' = connected s /\ cut s' = cut s.
 
 Lemma FlInv_fl0 : forall s, infl s = 0 -> FlInv s fl0.
 Proof. intros. unfold FlInv. simpl. auto. Qed.
@@ -92,11 +97,11 @@ Variable P : params.
 
 Lemma fl_step_ok : forall s f e s' r l,
   fl_step s f e = Some (s', r, l) ->
-  obs s <> [] -> FlInv s f -> transport s ->
-  obs s' <> [] /\ transport s' /\ same_rest s s' /\
+  obs s <> [] -> FlInv s f ->
+  obs s' <> [] /\ tr_l s' = tr_l s /\ same_rest s s' /\
   match r with FCont f' => FlInv s' f' | FDone _ => infl s' = 0 | FExc => False end.
 Proof.
-  intros s f e s' r l Hs Hne HI HT. unfold fl_step in Hs. unfold FlInv in HI. unfold transport in *.
+  intros s f e s' r l Hs Hne HI. unfold fl_step in Hs. unfold FlInv in HI. unfold tr_l in *.
   destruct f as [pc olen chunk n tmp sent]. cbn [fpc f_olen f_chunk f_n f_tmp f_sent] in *.
   destruct pc.
   - (* FlLoad *)
@@ -112,10 +117,11 @@ Proof.
     destruct HI as [Hi [Ho Hc]]. subst chunk.
     apply andb_true_iff in Ec. destruct Ec as [Ec _]. apply andb_true_iff in Ec. destruct Ec as [E1 E2].
     apply Nat.leb_le in E1. apply Nat.leb_le in E2.
-    assert (Hw : (wire s ++ firstn n0 (hd [] (obs s))) ++ skipn (infl s + n0) (concat (obs s)) ++ discarded s = produced s).
-    { rewrite Hi in *. cbn [Nat.add]. rewrite <- HT. cbn [skipn].
+    assert (Hw : (wire s ++ firstn n0 (hd [] (obs s))) ++ skipn (infl s + n0) (concat (obs s)) =
+                 wire s ++ skipn (infl s) (concat (obs s))).
+    { rewrite Hi in *. cbn [Nat.add skipn].
       rewrite (concat_hd _ (obs s) Hne). rewrite <- app_assoc. f_equal.
-      rewrite app_assoc. rewrite firstn_skipn_app by lia. rewrite <- app_assoc. reflexivity. }
+      rewrite firstn_skipn_app by lia. reflexivity. }
     destruct (Nat.eqb n0 0) eqn:E0; inv_some Hs; cbn.
     + apply Nat.eqb_eq in E0. subst n0. repeat split; auto. lia.
     + repeat split; auto. unfold FlInv; cbn. repeat split; auto; try lia. eapply Nat.le_trans; eauto.
@@ -129,8 +135,8 @@ Proof.
       assert (Hl : length (hd [] (set_hd (obs s) (skipn n (hd [] (obs s))))) = olen - n).
       { destruct (obs s) as [|b rest]; [congruence|]. cbn in *. rewrite skipn_length. lia. }
       assert (Hne' : set_hd (obs s) (skipn n (hd [] (obs s))) <> []) by (destruct (obs s); simpl; discriminate).
-      assert (HT' : wire s ++ concat (set_hd (obs s) (skipn n (hd [] (obs s)))) ++ discarded s = produced s).
-      { rewrite Hc. rewrite <- Hi. exact HT. }
+      assert (HT' : wire s ++ concat (set_hd (obs s) (skipn n (hd [] (obs s)))) = wire s ++ skipn n (concat (obs s))).
+      { rewrite Hc. reflexivity. }
       unfold FlInv; cbn. repeat split; auto.
   - (* FlTotR *)
     inv_some Hs. destruct HI as [Hi Ho]. repeat split; auto.
@@ -199,13 +205,13 @@ Definition complete (u : unit_) : Prop := match u with UResp id n => n = resp_le
 
 Record L3' (st : state) : Prop := {
   o_ne : obs (sh st) <> [];
-  o_unl : io_unl (ipc (io st)) = true -> requests (sh st) = [];
-  o_nsc : forall j, is_sc (wpc (wk st j)) = false;
+  o_unl : io_unl (ipc (io st)) = false;
   o_iosc : is_iosc (ipc (io st)) = true -> requests (sh st) = [];
   o_fio : forall f, io_fl (ipc (io st)) = Some f -> FlInv (sh st) f;
   o_fwk : forall j f, wk_fl (wpc (wk st j)) = Some f -> FlInv (sh st) f;
   o_infl : io_fl (ipc (io st)) = None -> (forall j, wk_fl (wpc (wk st j)) = None) -> infl (sh st) = 0;
   o_wire : transport (sh st);
+  o_cut : cut (sh st) + length (discarded (sh st)) <= length (produced (sh st));
   o_prod : produced (sh st) = flat_map (utoks P) (units (sh st));
   o_ids : resp_ids (units (sh st)) = execs (sh st);
   o_task : forall j, in_task (wpc (wk st j)) = true ->
@@ -215,16 +221,12 @@ Record L3' (st : state) : Prop := {
                       (connected (sh st) = true -> Forall complete us);
   o_done : (forall j, in_task (wpc (wk st j)) = false) -> connected (sh st) = true -> Forall complete (units (sh st));
   o_relx : forall j, is_relx (wpc (wk st j)) = true -> connected (sh st) = false;
-  o_disc : discarded (sh st) <> [] -> io_closed (ipc (io st)) = true;
-  o_dead : io_after_close (ipc (io st)) = true -> connected (sh st) = false;
-  o_app : forall j, app_pc (wpc (wk st j)) = true -> discarded (sh st) = []
+  o_disc : discarded (sh st) <> [] -> io_closed (ipc (io st)) = true
 }.
 
-Definition L3 (st : state) : Prop := wsc (sh st) = false -> L3' st.
-
-Lemma L3_init : L3 init.
+Lemma L3_init : L3' init.
 Proof.
-  intros _. split; simpl; intros; try discriminate; auto; try congruence.
-  all: try (unfold transport; reflexivity).
+  split; simpl; intros; try discriminate; auto; try congruence.
+  all: try (unfold transport, tr_l, kept; simpl; auto).
 Qed.
 End L3.
